@@ -371,7 +371,8 @@ def base_shape(qual: str):
 @functools.lru_cache(maxsize=None)
 def value_sort(qual: str) -> str:
     """Sort of the *value* of a class, found by evaluating its base shape on N_EVENTS
-    events: scalar (one number per event), array4, array3, matrix, size, unknown."""
+    events: scalar (one real number per event), complex, array4, array3, matrix, size,
+    unknown."""
     import numpy as np  # noqa: PLC0415
 
     try:
@@ -386,6 +387,9 @@ def value_sort(qual: str) -> str:
     if shape == () and isinstance(v, (int, np.integer)):
         return "size"
     if shape in {(), (N_EVENTS,)}:
+        z = np.asarray(v, dtype=complex)
+        if np.all(np.isfinite(z)) and np.max(np.abs(z.imag)) > 1e-9 * max(1.0, float(np.max(np.abs(z)))):
+            return "complex"  # complex-valued (SphericalHankel1): never used as a mass / energy argument
         return "scalar"
     if shape == (N_EVENTS, 4):
         return "array4"
@@ -405,15 +409,33 @@ def classes_of_value_sort(sort: str) -> tuple:
     return tuple(out)
 
 
+MAX_NESTED_SIZE = 20
+
+
+@functools.lru_cache(maxsize=None)
+def unfolded_size(qual: str) -> int:
+    """Operation count of the unfolded base shape (nested arguments with a large unfolded
+    form - Kibble, the analytic phase-space factors, the energy-dependent width - make
+    sympy's subs/doit on the enclosing expression take minutes and are left out)."""
+    import sympy as sp  # noqa: PLC0415
+
+    try:
+        return int(sp.count_ops(build(base_shape(qual)).doit()))
+    except Exception:  # noqa: BLE001
+        return 10**6
+
+
 def nested_candidates(sort: str, tier: str) -> list:
     """@unevaluated classes usable as an argument of the given sort.  quick: one
     representative with a non-SymPy field, one without and with scalar fields only,
-    one fed by an array; thorough: all of them."""
+    one fed by an array; thorough: all whose unfolded base form has <= MAX_NESTED_SIZE
+    operations."""
     quals = [q for q in classes_of_value_sort(sort)]
     if sort == "scalar":
         quals = [q for q in quals if not info(q).name.startswith("_")]
     if tier == "thorough":
-        return quals
+        reps = nested_candidates(sort, "quick")
+        return [q for q in quals if q in reps or unfolded_size(q) <= MAX_NESTED_SIZE]
 
     def key(q):
         return (len(info(q).fields), q)
@@ -869,7 +891,7 @@ def array_value(sym, seed: int):
 
 
 def np_values(exprs: list, seed: int, cse: bool = False, events=None, real_input: bool = False,
-              overrides=None):
+              overrides=None, off_axis: bool = False):
     """("ok", [arrays]) or ("error", "<Type>: message") for lambdify on the lattice."""
     import numpy as np  # noqa: PLC0415
     import sympy as sp  # noqa: PLC0415
@@ -892,7 +914,11 @@ def np_values(exprs: list, seed: int, cse: bool = False, events=None, real_input
             args.append(int(scalar_value(s_orig, 0, seed)))
         else:
             vals = [float(scalar_value(s_orig, j, seed)) for j in range(N_EVENTS)]
-            args.append(np.array(vals) if real_input else np.array(vals, dtype=complex))
+            if off_axis:  # generic complex point: away from every branch cut on the real axis
+                k = len(args)
+                args.append(np.array(vals, dtype=complex) + 1j * (0.0625 + 0.015625 * k))
+            else:
+                args.append(np.array(vals) if real_input else np.array(vals, dtype=complex))
     for a in arrs:
         v = array_value(a, seed)
         args.append(v)
@@ -991,6 +1017,9 @@ def numeric_compare(x, y, seed: int):
                         return "equal", "numpy-real-input", f"{int(np.sum(fin))} values"
                 except ValueError:
                     pass
+            gx, gy = np_values([x], seed, off_axis=True), np_values([y], seed, off_axis=True)
+            if gx[0] == "ok" and gy[0] == "ok" and arrays_close(gx[1][0], gy[1][0])[0] == "equal":
+                return "equal", "numpy-off-axis", "agree at a generic complex point (branch cut on the real axis)"
         return v, "numpy", f"{rx[1][0]} vs {ry[1][0]}" if v == "differ" else f"{n} values"
     if rx[0] == "error" and ry[0] == "error":
         return "undefined", "numpy", f"both sides not evaluable: {rx[1]}"
